@@ -357,6 +357,135 @@ C07_LOWER_TRI = dict(
     vars={"i": "Z", "j": "Z"},
 )
 
+# C11 / C13: the wrappers of every retrospective generator / smoother (core.py).  `f` is the abstract method
+# (self._generate_plates / self._smooth_plates): ANY function of the screen and the unread recorded answers `ds`.
+_C11_WRAP = dict(
+    file="src/batchie/core.py", out="SrcRetro.v", imports="Model.Encode Model.Screen Model.Retro",
+    pyparams=["self", "screen", "rng"],
+    params=[("f", "inner"), ("screen", "screen_t"), ("ds", "list draw")],
+    returns="screen_t", return_state=["ds"],
+    vars={"unobserved_subset": "opt subset_t", "observed_subset": "opt subset_t",
+          "new_unobserved_subset": "screen_t", "combined_screen": "screen_t"},
+    prims=[
+        ("__s.subset_unobserved()", "subset_unobserved {s}", "opt subset_t", {"s": "screen_t"}),
+        ("__s.subset_observed()", "subset_observed {s}", "opt subset_t", {"s": "screen_t"}),
+        ("__s.to_screen()", "to_screen {s}", "screen_t", {"s": "subset_t"}),
+        ("__a.combine(__b)", "!combine_screens {a} {b}", "screen_t", {"a": "screen_t", "b": "screen_t"}),
+    ],
+    ignore=["logger.warning(__a)"],
+)
+C11_GENERATE_PLATES = dict(
+    _C11_WRAP, cls="RetrospectivePlateGenerator", func="generate_plates", name="src_generate_plates",
+    state_calls=[("self._generate_plates(__s, rng)", ["ds"], "f {s} ds", "screen_t", {"s": "screen_t"})])
+C11_SMOOTH_PLATES = dict(
+    _C11_WRAP, cls="RetrospectivePlateSmoother", func="smooth_plates", name="src_smooth_plates",
+    state_calls=[("self._smooth_plates(__s, rng)", ["ds"], "f {s} ds", "screen_t", {"s": "screen_t"})])
+
+# MergeMinPlateSmoother (retrospective.py).  A Plate is its selection vector (`bvec`) into its parent screen `s`, which
+# Plate.merge mutates in place: the parent of every plate the method handles is `current_screen` (they all come from
+# current_screen.plates), so the primitives that read or write the parent name that variable.
+C13_MERGEMIN_SAMPLE_ID = dict(
+    file="src/batchie/retrospective.py", cls="MergeMinPlateSmoother", func="_get_plate_sample_id",
+    out="SrcRetro.v", imports="Model.Encode Model.Screen Model.Retro", name="src_merge_min_get_plate_sample_id",
+    pyparams=["self", "plate"], params=[("s", "screen_t"), ("plate", "bvec")], returns="name", vars={},
+    prims=[
+        ("__p.unique_sample_ids", "plate_unique_samples {p} s", "list name", {"p": "bvec"}),
+        ("len(__l)", "zlen {l}", "Z"),
+        ("__l[0]", "!first_item {l}", "name", {"l": "list name"}),
+    ],
+    raises=[("only valid for one-sample-per-plate designs", 4)],
+)
+C13_MERGEMIN = dict(
+    file="src/batchie/retrospective.py", cls="MergeMinPlateSmoother", func="_smooth_plates",
+    out="SrcRetro.v", imports="Model.Encode Model.Screen Model.Retro", name="src_merge_min_smooth_plates",
+    pyparams=["self", "screen", "rng"], unused_params=["rng"],
+    params=[("min_size", "Z"), ("screen", "screen_t"), ("ds", "list draw"), ("fuel", "nat")],
+    returns="screen_t", return_state=["ds"], while_fuel="fuel",
+    vars={"current_screen": "screen_t", "sample_id": "name", "plate_heap": "list bvec", "smallest_plate": "bvec",
+          "second_smallest_plate": "bvec", "merged_plate": "bvec"},
+    eqb={"name": "name_eqb"},
+    prims=[
+        ("self.min_size", "min_size", "Z"),
+        ("__s.unique_sample_ids", "sample_names {s}", "list name", {"s": "screen_t"}),   # ids = ranks of the sorted names
+        ("__s.plates", "plates_of {s}", "list bvec", {"s": "screen_t"}),
+        ("self._get_plate_sample_id(__p)", "!src_merge_min_get_plate_sample_id current_screen' {p}", "name", {"p": "bvec"}),
+        ("len(__l)", "zlen {l}", "Z"),
+        ("__p.size", "plate_size {p}", "Z", {"p": "bvec"}),
+    ],
+    effects=[
+        ("heapq.heapify(plate_heap)", "plate_heap'", "{state}"),                    # heap = the list of its items (see pop)
+        ("heapq.heappush(plate_heap, __x)", "plate_heap'", "{state} ++ [{x}]"),
+    ],
+    # heapq.heappop: the recorded answer says which item came out; refused unless it is a smallest one (heapq's contract)
+    state_calls=[("heapq.heappop(plate_heap)", ["plate_heap'", "ds"], "pop plate_heap' ds", "bvec")],
+    # Plate.merge: relabels the union in the parent, returns the merged plate
+    effect_calls=[("__b.merge(__a)", "current_screen'", "snd (merge {b} {a} {state})", "fst (merge {b} {a} {state})", "bvec")],
+    ignore=["logger.info(__a)"],
+)
+
+# create_plate_balanced_holdout_set_among_masked_plates (retrospective.py).  The float `fraction` is the exact rational
+# num/den (Model/RetroHoldout.v); it occurs in the source only inside the three primitives below.
+_COLS = ("treatment_names=__s.treatment_names[{i}], treatment_doses=__s.treatment_doses[{i}], observations=__s.observations[{i}], "
+         "sample_names=__s.sample_names[{i}], plate_names=__s.plate_names[{i}], control_treatment_name=__s.control_treatment_name, "
+         "observation_mask={m}, treatment_mapping=__s.treatment_mapping, sample_mapping=__s.sample_mapping")
+C11_BALANCED_HOLDOUT = dict(
+    file="src/batchie/retrospective.py", func="create_plate_balanced_holdout_set_among_masked_plates",
+    out="SrcRetro.v", imports="Model.Encode Model.Screen Model.Retro Model.RetroHoldout", name="src_balanced_holdout",
+    pyparams=["screen", "fraction", "rng"],
+    params=[("num", "Z"), ("den", "positive"), ("counts", "opt list Z"), ("screen", "screen_t"), ("ds", "list draw")],
+    returns="(screen_t * screen_t)", return_state=["ds"],
+    vars={"selection_vector": "bvec", "plate": "bvec", "plate_indices": "list nat", "n_sample": "Z",
+          "downsampled_indices": "list nat", "keep_screen": "screen_t", "holdout_screen": "screen_t"},
+    prims=[
+        ("fraction < 0", "num <? 0", "bool"),
+        ("fraction > 1", "Zpos den <? num", "bool"),
+        ("np.zeros(__s.size, dtype=bool)", "repeat false (length {s})", "bvec", {"s": "screen_t"}),
+        ("__s.plates", "plates_of {s}", "list bvec", {"s": "screen_t"}),
+        ("np.arange(__s.size)[__p.selection_vector]", "vec_indices {p}", "list nat", {"s": "screen_t", "p": "bvec"}),
+        ("__p.is_observed", "vec_observed {p} screen'", "bool", {"p": "bvec"}),       # the plates' parent is `screen`
+        ("__p.size", "plate_size {p}", "Z", {"p": "bvec"}),
+        ("Screen(" + _COLS.format(i="~__v", m="__s.observation_mask[~__v]") + ")", "!screen_without {s} {v}", "screen_t",
+         {"s": "screen_t", "v": "bvec"}),
+        ("Screen(" + _COLS.format(i="__v", m="np.ones(np.count_nonzero(__v), dtype=bool)") + ")", "!screen_observed_of {s} {v}",
+         "screen_t", {"s": "screen_t", "v": "bvec"}),
+    ],
+    state_calls=[
+        ("math.ceil(__n * fraction)", ["counts"], "ceil_count {n} num den counts", "Z", {"n": "Z"}),
+        ("rng.choice(__a, __n, replace=False)", ["ds"], "choose {a} {n} ds", "list nat", {"a": "list nat", "n": "Z"}),
+    ],
+    assign_effects=[("selection_vector[__i] = True", "selection_vector'", "set_true (length screen') {state} {i}")],
+    raises=[("fraction must be between 0 and 1", 5)],
+)
+
+# MergeTopBottomPlateSmoother (retrospective.py): same conventions as MergeMin; no random / heap answers are consumed.
+C13_MERGETB_SAMPLE_ID = dict(C13_MERGEMIN_SAMPLE_ID, cls="MergeTopBottomPlateSmoother", name="src_merge_tb_get_plate_sample_id")
+C13_MERGETB = dict(
+    file="src/batchie/retrospective.py", cls="MergeTopBottomPlateSmoother", func="_smooth_plates",
+    out="SrcRetro.v", imports="Model.Encode Model.Screen Model.Retro", name="src_merge_tb_smooth_plates",
+    pyparams=["self", "screen", "rng"], unused_params=["rng"],
+    params=[("n_iter", "Z"), ("screen", "screen_t")],
+    returns="screen_t",
+    vars={"current_screen": "screen_t", "sample_id": "name", "i": "Z", "plates": "list bvec", "halfway": "Z",
+          "smaller_plate": "bvec", "bigger_plate": "bvec"},
+    eqb={"name": "name_eqb"},
+    prims=[
+        ("self.n_iterations", "n_iter", "Z"),
+        ("__s.unique_sample_ids", "sample_names {s}", "list name", {"s": "screen_t"}),
+        ("__s.plates", "plates_of {s}", "list bvec", {"s": "screen_t"}),
+        ("self._get_plate_sample_id(__p)", "!src_merge_tb_get_plate_sample_id current_screen' {p}", "name", {"p": "bvec"}),
+        ("math.floor(len(__l) / 2)", "zlen {l} / 2", "Z"),               # floor of the true quotient = integer quotient
+        ("len(__l)", "zlen {l}", "Z"),
+        ("sorted(__l, key=lambda x: x.size)", "sort_sz {l}", "list bvec"),   # stable sort by size
+        ("zip(__a, __b)", "combine {a} {b}", "list (bvec * bvec)", {"a": "list bvec", "b": "list bvec"}),
+        ("list(reversed(__l))", "rev {l}", "list bvec", {"l": "list bvec"}),
+        ("__l[:__n]", "firstn (Z.to_nat {n}) {l}", "list bvec", {"l": "list bvec", "n": "Z"}),
+    ],
+    effects=[("__b.merge(__a)", "current_screen'", "snd (merge {b} {a} {state})")],   # Plate.merge relabels in the parent
+    ignore=["logger.info(__a)"],
+)
+
 ALL = [C16_FILTER, C17_SAMPLE, C07_LOWER_TRI,
        C10_INIT, C10_N_THETAS, C10_GET, C10_ADD, C10_IS_COMPLETE, C10_COMBINE, C10_CONCAT, C10_LOAD, C10_SAVE,
-       C06_SELECT, C06_SCORE_CHUNK, C16_SELECT, C06_ADD_SCORE, C06_COMBINE, C06_MIN_SCORE, C06_CONCAT]
+       C06_SELECT, C06_SCORE_CHUNK, C16_SELECT, C06_ADD_SCORE, C06_COMBINE, C06_MIN_SCORE, C06_CONCAT,
+       C11_GENERATE_PLATES, C11_SMOOTH_PLATES, C13_MERGEMIN_SAMPLE_ID, C13_MERGEMIN, C11_BALANCED_HOLDOUT,
+       C13_MERGETB_SAMPLE_ID, C13_MERGETB]
